@@ -191,4 +191,26 @@ theorem c14_gen_final_slash (k : Int) :
   simp only [Gen.C14.RegisterREST_finalSlash, Gen.C14.intGET, Gen.C14.sliceGET]
   by_cases h2 : k = 2 <;> by_cases h3 : k = 3 <;> simp [h2, h3]
 
+/-- **the connection table forgets and dials by the translated decisions**: `mSend` dials exactly when the
+translated `!connected` of `newConnIfNotExist` holds for "a connection is stored under the key", and drops
+the connection after the request exactly when the translated `if failed` of `Send`'s deferred function or
+the translated `if !c.keep` of `closeSingleUseConn` says so (keeping after a failure — the defect fixed in
+5b2df0e —, or closing kept connections, breaks this) -/
+theorem c14_gen_connection_table {K D : Type} [DecidableEq K] (key : D → K) (keep : Bool) (c : MCl K D) (d : D) (ok : Bool) :
+    let c1 : MCl K D := if Gen.C14.newConn_dials (c.find (key d)).isSome then ⟨(key d, d) :: c.conns⟩ else c
+    (mSend key keep c d ok).1 =
+      (if Gen.C14.Send_forgetsFailed (!ok) || Gen.C14.closeSingleUse_closes ⟨keep⟩ then c1.drop (key d) else c1) := by
+  simp only [mSend, Gen.C14.newConn_dials, Gen.C14.Send_forgetsFailed, Gen.C14.closeSingleUse_closes]
+  cases hf : c.find (key d) <;> cases ok <;> cases keep <;> simp
+/-- **a lock object is made exactly when none exists** (`newConnIfNotExist`: `if !exists { c.connectionsLock[dest] =
+&sync.Mutex{} }`, the translated test): the step of a caller that enters `Send` in the client model `KCl` adds a lock
+object iff the translated `!exists` holds of "the destination has a lock object" — never a second one (two lock
+objects for one connection let two callers interleave: `c14_client_lock_deleted_with_connection_swaps`) -/
+theorem c14_gen_lock_object (v : KVariant) (respond : Bytes → Option Bytes) (y : KCl) (i : Nat) (q : Bytes)
+    (h : y.callers[i]? = some (q, .start)) :
+    (kStep v respond y (.caller i)).map (fun y' => y'.locks.length) =
+      some (if Gen.C14.newConn_makesLock y.curLock.isSome then y.locks.length + 1 else y.locks.length) := by
+  simp only [kStep, h, Gen.C14.newConn_makesLock]
+  cases y.curLock <;> simp
+
 end C14
